@@ -276,6 +276,21 @@ func addRichLigatures(t *rapid.T, f *sfnt.Font) {
 	}
 	f.Gsub.LookupList = append(f.Gsub.LookupList, &gtab.LookupTable{
 		Meta: &gtab.LookupMetaInfo{LookupType: 4}, Subtables: []gtab.Subtable{sub}})
+	if rapid.IntRange(0, 2).Draw(t, "twinLookup") == 0 {
+		// a second lookup with the same component sequences and other
+		// ligature glyphs (as liga and dlig features of one font may have):
+		// the same joined name is then wanted for two different glyphs
+		twin := &gtab.Gsub4_1{Cov: sub.Cov}
+		for _, set := range sub.Repl {
+			var set2 []gtab.Ligature
+			for _, lig := range set {
+				set2 = append(set2, gtab.Ligature{In: lig.In, Out: gid.Draw(t, "twinOut")})
+			}
+			twin.Repl = append(twin.Repl, set2)
+		}
+		f.Gsub.LookupList = append(f.Gsub.LookupList, &gtab.LookupTable{
+			Meta: &gtab.LookupMetaInfo{LookupType: 4}, Subtables: []gtab.Subtable{twin}})
+	}
 }
 
 func opts() genfont.Opts {
